@@ -83,6 +83,7 @@ K1 = REG.add(Contract(
     loop_anchor={1: "enumerate(starts)"},
     ghost_init=file_init(),
     properties=("C02", "C05", "C07", "C09", "C19"),
+    reveal=("io",),
 ))
 K1.loop_fields = ["$cursor"]
 K1.local_types = {"starts": LIST(TUPLE(INT, INT, STR)), "ends": LIST(INT), "section_positions": LIST(SECTION_T)}
